@@ -157,6 +157,13 @@ func HarnessC06Recipients() {
 	m.SetBodyString(TypeTextPlain, "body\r\n")
 	md := &hxAddrModel{}
 	symName := false
+	// starting point: an empty message, or one that already has a sender and a
+	// To recipient (so that short op sequences reach the on-the-wire checks with
+	// overlapping To/Cc/Bcc lists)
+	if svParam("preset", 0) == 1 {
+		hxApplyOp(m, md, 13, 0, 0, name)
+		hxApplyOp(m, md, 0, 1%na, 0, name)
+	}
 	for k := 0; k < L; k++ {
 		op := svPick("op", nops)
 		a := svPick("a", na)
